@@ -48,8 +48,11 @@ pub fn clear_all_rules() {
 impl Exec {
     pub fn new(case_no: u64) -> Self {
         clear_all_rules();
-        // one virtual hour per case: the process-global inbound node's window is empty at case start
-        verif_clock::enable(T0_NS + case_no * 3_600_000_000_000);
+        // one virtual hour per case (and at least one hour after whatever time the previous case reached): the
+        // process-global inbound node's window is empty at case start and time never runs backwards
+        let hour = 3_600_000_000_000u64;
+        let after_prev = verif_clock::now_ns().map(|t| t + hour).unwrap_or(0);
+        verif_clock::enable(std::cmp::max(T0_NS + case_no * hour, after_prev));
         sentinel_core::system_metric::verif::set_system_load(0.0);
         sentinel_core::system_metric::verif::set_cpu_usage(0.0);
         let events = Arc::new(Mutex::new(Vec::new()));
